@@ -51,6 +51,7 @@ static rc::Gen<KV> gen_c14() {
             for (int i = 0; i < ffs; ++i) n[15 - i] = 0xff;   // carry chain of length ffs
             if (ffs < 16 && n[15 - ffs] == 0xff) n[15 - ffs] = 0x7f;
             KV c; c["type"] = num(type); c["key"] = hex(std::get<0>(t)); c["nonce"] = hex(n); c["carry"] = num(ffs); c["ops"] = enc_ops(std::get<2>(t));
+            c["initmode"] = num(std::get<0>(t)[0] % 8 == 1 ? 1 : std::get<0>(t)[0] % 8 == 2 ? 2 : 0);   // C sessions: init with a NULL nonce / NULL key
             return c; });
     });
 }
@@ -69,6 +70,7 @@ static bool classify_c14(const KV &c, std::vector<std::string> &tags) {
     tags.push_back("carry=" + tostr(c, "carry"));
     if (failed_then_packet) tags.push_back("failed-decrypt-then-packet");
     if (odd_nonce) tags.push_back("set_nonce-len!=16");
+    if (type < 3 && tonum(c, "initmode")) tags.push_back(tonum(c, "initmode") == 1 ? "init-null-nonce" : "init-null-key");
     return (packets >= 2 && tonum(c, "carry") >= 1) || failed_then_packet || odd_nonce;
 }
 
@@ -83,11 +85,14 @@ static Bytes oneshot(int fam, int alg, const Bytes &key, const Bytes &nonce, con
 }
 
 template <class A>
-static std::string run_c_session(int alg, Bytes key, Bytes model, const std::vector<NOp> &ops) {
+static std::string run_c_session(int alg, Bytes key, Bytes model, const std::vector<NOp> &ops, int initmode) {
     typename A::state_t *s = (typename A::state_t *)xalloc(sizeof(typename A::state_t));
     memset(s, 0xA5, sizeof(*s));
     Buf k(key);
-    { Buf n(model); A::init(s, n.p, k.p); }
+    // documented for *_aead_init: a NULL nonce means the all-zero nonce, a NULL key the all-zero key
+    if (initmode == 1) { A::init(s, nullptr, k.p); model.assign(16, 0); }
+    else if (initmode == 2) { Buf n(model); A::init(s, n.p, nullptr); key.assign(key.size(), 0); }
+    else { Buf n(model); A::init(s, n.p, k.p); }
     std::string err;
     int step = 0;
     for (auto &o : ops) {
@@ -176,9 +181,10 @@ static std::string check_c14(const KV &c) {
     int type = (int)tonum(c, "type");
     Bytes key = tobytes(c, "key"), nonce = tobytes(c, "nonce");
     std::vector<NOp> ops = dec_ops(tostr(c, "ops"));
-    if (type == 0) return run_c_session<lib::Incascon128>(0, key, nonce, ops);
-    if (type == 1) return run_c_session<lib::Incascon128a>(1, key, nonce, ops);
-    if (type == 2) return run_c_session<lib::Incascon80pq>(2, key, nonce, ops);
+    int initmode = (int)tonum(c, "initmode");
+    if (type == 0) return run_c_session<lib::Incascon128>(0, key, nonce, ops, initmode);
+    if (type == 1) return run_c_session<lib::Incascon128a>(1, key, nonce, ops, initmode);
+    if (type == 2) return run_c_session<lib::Incascon80pq>(2, key, nonce, ops, initmode);
     return run_cpp_session((type - 3) / 3, (type - 3) % 3, key, nonce, ops);
 }
 
